@@ -91,13 +91,17 @@ def items(tier: str, seed: int) -> list[tuple[Any, ...]]:
         sts = _state_items(cfg, m)
         for st, hist in sts:
             out.append(("full", cfg, _ser(st), hist))
-        # switch subsets.  All 512 on the hand-built models (quick: states at history depth <= 2 / one per session),
+        # switch subsets.  quick: all 512 on the hand-built models (states at history depth <= 2 / one per session),
         # all subsets with at most two switches off plus all-off on one state per session of every random model;
-        # thorough: all 512 in every state of every model.
+        # thorough: all 512 in every state of the hand-built models and in one state per session of every random
+        # model, the at-most-two-off subsets plus all-off in every other state.
         if tier == "thorough":
             for st, hist in sts:
-                for k in range(SUBSET_SLICES):
-                    subs.append(("subsets", cfg, _ser(st), hist, k))
+                if cfg["kind"] == "hand" or (st[1] is None and st[2] is None):
+                    for k in range(SUBSET_SLICES):
+                        subs.append(("subsets", cfg, _ser(st), hist, k))
+                else:
+                    subs.append(("subsets", cfg, _ser(st), hist, "pairs"))
         elif cfg["kind"] == "hand":
             depth = 2 if cfg["name"] == "three" else 1
             for st, hist in sts:
@@ -140,6 +144,13 @@ def _off(mask: int) -> str:
     return off
 
 
+def _svc(sid: int) -> str:
+    """coarse service class for signatures of rule violations (one root cause -> few signatures)."""
+    if sid in ref.SUBFUNC:
+        return "subfunction-service"
+    return "plain-service" if sid in ref.FORMAT_SIDS else "service-without-format-table"
+
+
 def _sidcat(sid: int) -> str:
     return f"{sid:02x}" if sid in ref.FORMAT_SIDS else "other"
 
@@ -165,6 +176,7 @@ class Judge:
         self.hist = hist
         self.handler_seen: dict[Any, tuple[bytes, bool]] = {}
         self.parse_disagree: set[bytes] = set()
+        self.tainted: set[bytes] = set()  # requests that already have a violation: no differential noise on top
 
     def rp(self, q: bytes, mask: int, **kw: Any) -> dict[str, Any]:
         d = {"cfg": self.cfg, "hist": [list(e) for e in self.hist], "request": q.hex(), "mask": mask}
@@ -201,6 +213,7 @@ class Judge:
         def bad(sig: str, msg: str, with_off: bool = True) -> None:
             nonlocal ok
             ok = False
+            self.tainted.add(q)
             if with_off:
                 sig += "|off=" + ("-" if mask == ref.ALL else (label(sig) if label else _off(mask)))
             res.violate(sig, msg + " :: " + self.where(q, pre, mask), self.rp(q, mask, **(rp_extra or {})))
@@ -243,7 +256,7 @@ class Judge:
         elif kind == "neg":
             want = bytes([0x7F, sid, d[1]])
             if h != want:
-                bad(f"C13|{d[2]}|sid={_sidcat(sid)}|want={d[1]:02x}|got={_cls(h)}", f"rule {d[2]}: expected {want.hex()}, got {h.hex() if h else None}")
+                bad(f"C13|{d[2]}|svc={_svc(sid)}|want={d[1]:02x}|got={_cls(h)}", f"rule {d[2]}: expected {want.hex()}, got {h.hex() if h else None}")
         elif kind == "pos":
             good = h is not None and (h == d[1] if d[2] else h[: len(d[1])] == d[1])
             if not good:
@@ -254,6 +267,14 @@ class Judge:
                 if mask & ref.NONE:
                     bad(f"C13|none|sid={_sidcat(sid)}|no-answer", "no answer at all although default_response_if_none is on")
             elif wf:
+                if h[0] == 0x7F and len(h) == 3 and (
+                    h[2] in (ref.NRC_SNS, ref.NRC_SNSIAS, ref.NRC_SFNSIAS) or (h[2] == ref.NRC_SFNS and sid not in (ref.RC, ref.RDTC))
+                ):
+                    rule = "service_not_supported" if h[2] in (ref.NRC_SNS, ref.NRC_SNSIAS) else "sub_function_not_supported"
+                    bad(
+                        f"C13|{rule}|fired-although-no-rule-applies|svc={_svc(sid)}|got={_cls(h)}",
+                        f"service and sub-function are offered in the active session (or the rule is off) but the answer is {h.hex()}",
+                    )
                 if h[0] == 0x7F and len(h) == 3 and h[2] == ref.NRC_IMLOIF and not record_dependent(q):
                     bad(
                         f"C13|incorrect_format|wellformed-request-answered-13|sid={_sidcat(sid)}|sub={q[1] & 0x7F if sid in (ref.DDDI, ref.RDTC, ref.RC) and len(q) > 1 else '*'}|suppress-bit={int(ref.suppressible(q))}",
@@ -276,8 +297,8 @@ class Judge:
             norm = h if h is not None else bytes([0x7F, sid, ref.NRC_GR])
             hk = (pre, (rp_extra or {}).get("entropy", 0), q)
             ifmt = bool(mask & ref.IFMT)
-            if q in self.parse_disagree:
-                pass  # server and reference disagree on whether q parses (reported above); nothing to compare
+            if q in self.parse_disagree or q in self.tainted:
+                pass  # already reported for this request; no differential noise on top
             elif hk in self.handler_seen:
                 prev, prev_ifmt = self.handler_seen[hk]
                 if prev != norm:
